@@ -9,12 +9,14 @@ import (
 	"path/filepath"
 	"sort"
 	"strings"
+	"sync"
 	"syscall"
 	"time"
 
 	"verif/harness/lib"
 
 	"github.com/buchgr/bazel-remote/v2/cache"
+	"github.com/klauspost/compress/zstd"
 )
 
 // fileRec is one cache file the harness knows about: where it was put, what
@@ -202,10 +204,27 @@ func pickSuffix(rng *rand.Rand) (string, bool) {
 	}
 }
 
+// klauspost encoders are expensive to create and safe for concurrent
+// EncodeAll, so one per level is shared.
+var (
+	kpOnce [4]sync.Once
+	kpEnc  [4]*zstd.Encoder
+)
+
+func kpEncode(b []byte, level int) []byte {
+	if level < 1 || level > 3 {
+		level = 2
+	}
+	kpOnce[level].Do(func() {
+		kpEnc[level], _ = zstd.NewWriter(nil, zstd.WithEncoderLevel(zstd.EncoderLevel(level)), zstd.WithEncoderConcurrency(1))
+	})
+	return kpEnc[level].EncodeAll(b, nil)
+}
+
 func encodeCas(data []byte, enc string, level int) []byte {
 	switch enc {
 	case "zstd-kp":
-		return lib.CasWrite(data, lib.MiB, 1, func(c []byte) []byte { return lib.ZstdEncodeKP(c, level) })
+		return lib.CasWrite(data, lib.MiB, 1, func(c []byte) []byte { return kpEncode(c, level) })
 	case "zstd-c":
 		return lib.CasWrite(data, lib.MiB, 1, func(c []byte) []byte { return lib.ZstdEncodeC(c, level) })
 	case "ident-hdr":
@@ -255,9 +274,9 @@ func place(rng *rand.Rand, f *fileRec) {
 
 func pickLevel(rng *rand.Rand, enc string) int {
 	if enc == "zstd-c" {
-		return []int{1, 3, 9, 19}[rng.IntN(4)]
+		return []int{1, 3, 7}[rng.IntN(3)]
 	}
-	return 1 + rng.IntN(4)
+	return 1 + rng.IntN(3)
 }
 
 // genPopulation builds (in memory) a directory population. Pure function of rng.
